@@ -23,14 +23,14 @@ func (w *RandomCriteriaOrderingResolver) Spec_OrderCriteria(
 	props *model.BiasProps,
 	_ *model.BiasListener,
 ) *model.Criteria {
-	parsedProps := parseRandomOrderingProps(props)
+	parsedProps := Spec_parseRandomOrderingProps(props)
 	generator := w.Generator(parsedProps.RandomSeed)
-	return shuffleCriteria(&params.Criteria, generator)
+	return Spec_shuffleCriteria(&params.Criteria, generator)
 }
 
 func Spec_parseRandomOrderingProps(props *model.BiasProps) *randomProps {
 	parsedProps := randomProps{}
-	utils.DecodeToStruct(*props, &parsedProps)
+	utils.Spec_DecodeToStruct(*props, &parsedProps)
 	return &parsedProps
 }
 
